@@ -27,7 +27,7 @@ RULE = ('programs: corpus (calls, recursion, exceptions, generators, iterators, 
         '(warnings filters and their version, state of the shared random generator, recursion limit, switch interval, gc thresholds, except/profile hooks, '
         'std streams, cwd, environment, sys.path, locale, decimal context, SIGINT handler, root logger) against the run without the agent')
 RULE_ADDED = 'rounds 3-5: program thread_teardown and the built-in PythonPlugin among the plugins; an exception object the application keeps, raised again by watches / log fields / labels / conditions; lifetimes.drain (objects below a container under capture tracepoints); closure cell written by another thread from inside the delivery seam (2 lines x 3 frame types)'
-RULE_ADDED8 = "round 8: lifetimes has a variable deleted / rebound half-way through a function and a variable of the calling function deleted after the call; reads_own_frame reads frame.f_locals of its own and of its caller's frame between events"
+RULE_ADDED8 = "round 8: lifetimes has a variable deleted / rebound half-way through a function and a variable of the calling function deleted after the call; reads_own_frame reads frame.f_locals of its own and of its caller's frame between events; round 9: exec_names keeps names in the mapping of the frame only (exec() in a function, locals()[k] = v); lifetimes has a generator that deletes a variable after being resumed"
 RULE = RULE + ' ; ' + RULE_ADDED + ' ; ' + RULE_ADDED8
 ASSUMPTIONS = ['expressions are side-effect free; the fault model is seam-level: every injected failure is realisable by a concrete plugin / object / environment',
                'program output = what the program writes through out(); agent log records are not program output',
